@@ -23,8 +23,8 @@ TEXT = {
  "C01": ("Bounded model checking of the compiled real code. (a) the legality filter try_as_legal_move is decided on every legal position with <= 2 (thorough: 3) opposing men per kind and every candidate move, against an independent rule reference; (b) the candidate generator is decided sound, duplicate-free and complete on families of kings + <= 3 men with symbolic squares, castling rights and en-passant target; a glue lemma (no bound) shows every legal move is a candidate. The six-line filter loop and perft are argued from reading, not decided.",
          "DESIGN.md §4.1", "Assumes C09 (lookups = geometry, gated on the same tree). Reference rules in harness/common/rules.rs are validated natively against the real generator on perft walks at setup. Vec::push replaced by a non-reallocating equivalent that asserts capacity. Memory-safety (pointer) checks off for the generator harnesses while /repo has no `unsafe`.",
          "SAT-based bounded model checking (Kani/CBMC) of try_as_legal_move and compute_psuedo_legal_moves_into over symbolic positions, differential against an independent rule reference"),
- "C02": ("Bounded model checking with no bound on the position: twelve free bitboards, symbolic side, rights, en-passant target, clocks (< 2^32) and move; every field of State::by_performing_move's result is compared with an independent make-move reference, and the legal-position invariant is shown preserved by every legal move (induction step for sequences). MoveQuery::test is decided for every coordinate triple.",
-         "DESIGN.md §4.2", "State::by_performing_moves (which runs the legal move generator) is read, not decided. Reference make-move in harness/common/rules.rs validated natively at setup.",
+ "C02": ("Bounded model checking with no bound on the position: twelve free bitboards, symbolic side, rights, en-passant target, clocks (< 2^32) and move; every field of State::by_performing_move's result is compared with an independent make-move reference, and the legal-position invariant is shown preserved by every legal move (induction step for sequences). MoveQuery::test is decided for every coordinate triple, and the resolver of State::by_performing_moves (exactly one match applies that move, none / several are rejected, input unchanged) on every adversarial candidate list of 0, 1 or 2 moves.",
+         "DESIGN.md §4.2", "State::by_performing_moves is decided on arbitrary candidate lists of <= 2 moves substituted for the legal move generator, not on the real generator's list. Reference make-move in harness/common/rules.rs validated natively at setup.",
          "SAT-based bounded model checking (Kani/CBMC) of State::by_performing_move on fully symbolic positions; one inductive step over the position invariant"),
  "C05": ("Bounded model checking of the real evaluator with bit-precise floats on 3- and 4-man families in which the side to move is a lone king: all squares, both perspectives, ply <= 10^6; mate / stalemate / non-terminal decided against an eight-step legality reference; mate-score monotonicity for all ply <= 10^6.",
          "DESIGN.md §4.3", "Assumes C09 (gated). compute_legal_moves inside the evaluator is replaced by a move set that is empty iff the reference finds no legal king step (discharged by C01 up to its filter-loop reading argument); native replay uses the real generator. Pointer checks off while /repo has no `unsafe`.",
